@@ -15,7 +15,8 @@ NoCfg == [local |-> "", prefix |-> "", hints |-> <<>>,
 Raw(t) == Flat(R(NoCfg, t, NilC, <<>>)[1])
 Pieces(t) == R(NoCfg, t, NilC, <<>>)[1]
 \* the same under a File that aliases x/d (Dict cases: the rendered key text depends on the File's settings)
-DCfg(al) == IF al = "" THEN NoCfg ELSE [NoCfg EXCEPT !.hints = [p \in {"x/d"} |-> Def(al, TRUE)]]
+\* (al = "@pkg": no alias, but PackagePrefix = "pkg" - guessed names are prefixed, so the text of a qualified key changes)
+DCfg(al) == IF al = "" THEN NoCfg ELSE IF al = "@pkg" THEN [NoCfg EXCEPT !.prefix = "pkg"] ELSE [NoCfg EXCEPT !.hints = [p \in {"x/d"} |-> Def(al, TRUE)]]
 RawA(al, t) == Flat(R(DCfg(al), t, NilC, <<>>)[1])
 PiecesA(al, t) == R(DCfg(al), t, NilC, <<>>)[1]
 Seqs(S, n) == UNION {[1..k -> S] : k \in 0..n}
@@ -77,7 +78,10 @@ C13_Holds(cs) ==
 
 (* -------------------------- C16 / C07: dicts ---------------------------- *)
 \* key / value pools; texts are listed in byte order in KeyOrder so that the model can sort
-KeyPool == {"a", "ab", "a1", "1", "10", "9", "f1", "f2", "qx", "qy", "null", "sk1", "sk2"}
+KeyPool == {"a", "ab", "a1", "1", "10", "9", "f1", "f2", "qx", "qy", "null", "sk1", "sk2", "s1", "s2", "s3"}
+\* (string-literal keys: the order is that of the RENDERED text, quotes included - "user id" < "user!" < "user" - and any
+\*  literal sorts before every identifier; combined with plain values only)
+StrKeys == {"s1", "s2", "s3"}
 ValPool == {"v1", "vq", "vs", "null", "vf", "vd0", "vd2"}
 \* (values that run over several lines - a function literal, a nested Dict - and a nested Dict that renders {}: combined
 \*  with three kinds of keys only, to keep the universe small)
@@ -98,11 +102,15 @@ KeyCode(k, i) ==
     [] k = "qx"   -> Qual("x/d", "K")
     [] k = "qy"   -> Qual("y/d", "K")
     [] k = "null" -> Stmt(<<NullT>>)
+    [] k = "s1"   -> Stmt(<<LitT("\"user\"")>>)
+    [] k = "s2"   -> Stmt(<<LitT("\"user id\"")>>)
+    [] k = "s3"   -> Stmt(<<LitT("\"user!\"")>>)
     [] k = "sk1"  -> StructKey("Circle", "R", "1")
     [] k = "sk2"  -> StructKey("Square", "A", "2")
 \* the value identifies its key (so that a value attached to another pair's key is visible)
 KeyNo(k) == CASE k = "a" -> "710" [] k = "ab" -> "711" [] k = "a1" -> "718" [] k = "10" -> "719" [] k = "9" -> "720" [] k = "1" -> "712" [] k = "f1" -> "713" [] k = "f2" -> "714"
               [] k = "qx" -> "715" [] k = "qy" -> "716" [] k = "null" -> "717" [] k = "sk1" -> "721" [] k = "sk2" -> "722"
+              [] k = "s1" -> "723" [] k = "s2" -> "724" [] k = "s3" -> "725"
 StrVal(k) == "\"http://e.com/*" \o KeyNo(k) \o "*/,}:{\""
 ValCode(v, k) ==
   CASE v = "v1"   -> Stmt(<<LitT(KeyNo(k))>>)
@@ -113,7 +121,7 @@ ValCode(v, k) ==
     [] v = "vd0"  -> Stmt(<<Grp("values", <<Dict(<<Pair(Stmt(<<NullT>>), Stmt(<<LitT("1")>>))>>, <<1>>)>>)>>)      \* renders {} : not null
     [] v = "vd2"  -> Stmt(<<Grp("values", <<Dict(<<Pair(Stmt(<<Id("m")>>), Stmt(<<LitT(KeyNo(k))>>)), Pair(Stmt(<<Id("n")>>), Stmt(<<LitT("2")>>))>>, <<1, 2>>)>>)>>)
 \* byte order of every key text that can occur ("1" < "a" < "ab" < "d.K" < "d1.K" < "f ()"; statement items are joined by one blank)
-KeyOrder == <<"1", "10", "9", "Circle {R:1}", "Square {A:2}", "a", "a1", "ab", "d.K", "d1.K", "f ()", "zz.K">>
+KeyOrder == <<"\"user id\"", "\"user!\"", "\"user\"", "1", "10", "9", "Circle {R:1}", "Square {A:2}", "a", "a1", "ab", "d.K", "d1.K", "f ()", "pkg_d.K", "pkg_d1.K", "zz.K">>
 Rank(t) == CHOOSE i \in DOMAIN KeyOrder : KeyOrder[i] = t
 \* a dict case: pairs (sequence of <<key, val>> names, first-pass visiting order = sequence order)
 DictTree(pairs, order) == Stmt(<<Kw("var"), Id("_"), Op("="), Id("T"), Grp("values", <<Dict([i \in DOMAIN pairs |-> Pair(KeyCode(pairs[i][1], i), ValCode(pairs[i][2], pairs[i][1]))], order)>>)>>)
@@ -134,9 +142,9 @@ DictCase(al, pairs) ==
              ELSE IF \E i, j \in DOMAIN pairs : pairs[i][1] = "f1" /\ pairs[j][1] = "f2" /\ pairs[i][2] # "null" /\ pairs[j][2] # "null" THEN "F6b" ELSE "",
    live |-> Cardinality({i \in DOMAIN pairs : pairs[i][1] # "null" /\ pairs[i][2] # "null"})]
 \* distinct keys, except that f1/f2 may both occur (identical text) and qx/qy (colliding base names)
-PairSeqs == {ps \in Seqs({kv \in KeyPool \X ValPool : kv[2] \in BigVals => kv[1] \in BigValKeys}, MaxArity) :
+PairSeqs == {ps \in Seqs({kv \in KeyPool \X ValPool : (kv[2] \in BigVals => kv[1] \in BigValKeys) /\ (kv[1] \in StrKeys => kv[2] = "v1")}, MaxArity) :
                \A i, j \in DOMAIN ps : i # j => ps[i][1] # ps[j][1] \/ ps[i][1] = "null"}
-DictCases == {DictCase(al, ps) : al \in {"", "zz"}, ps \in PairSeqs}
+DictCases == {DictCase(al, ps) : al \in {"", "zz", "@pkg"}, ps \in PairSeqs}
 
 \* the property on the model: every live pair exactly once as key:value, in key order
 PairPieces(ps, i) == Flat(Pieces(KeyCode(ps[i][1], i)))   \* (only used for keys without package references)
@@ -255,13 +263,14 @@ CaseOf(st) == CASE st.u = "lists" -> ListCase(st.name, st.kinds)
                 [] st.u \in {"comments", "repeat"} -> st.cs
 Init == CASE Universe = "lists"    -> c \in {[u |-> "lists", name |-> n, kinds |-> <<>>] : n \in ListConstructs}
                                         \cup {[u |-> "lists", name |-> n, kinds |-> LongKinds(len, p)] : n \in ListConstructs, len \in LongLens, p \in DOMAIN LongPats}
-          [] Universe = "dicts"    -> c \in {[u |-> "dicts", alias |-> al, pairs |-> <<>>] : al \in {"", "zz"}}
+          [] Universe = "dicts"    -> c \in {[u |-> "dicts", alias |-> al, pairs |-> <<>>] : al \in {"", "zz", "@pkg"}}
           [] Universe = "comments" -> c \in {[u |-> "comments", cs |-> x] : x \in {y \in CmtCases : ValidCmt(y)}}
           [] Universe = "repeat"   -> c \in {[u |-> "repeat", cs |-> x] : x \in RepeatCases}
 Next == \/ /\ c.u = "lists" /\ Len(c.kinds) < MaxArity
            /\ \E k \in ItemKinds : c' = [c EXCEPT !.kinds = Append(@, k)]
-        \/ /\ c.u = "dicts" /\ Len(c.pairs) < MaxArity
+        \/ /\ c.u = "dicts" /\ Len(c.pairs) < (IF c.alias = "@pkg" THEN 2 ELSE MaxArity)     \* (the prefixed File: pairs of keys are enough)
            /\ \E k \in KeyPool, v \in ValPool :
+                /\ (v \in BigVals => k \in BigValKeys) /\ (k \in StrKeys => v = "v1")
                 /\ \A i \in DOMAIN c.pairs : c.pairs[i][1] # k \/ k = "null"
                 /\ c' = [c EXCEPT !.pairs = Append(@, <<k, v>>)]
 Spec == Init /\ [][Next]_c
